@@ -1,0 +1,18 @@
+//go:build verif
+// +build verif
+
+package subjectaccessreview
+
+import (
+	"time"
+
+	"k8s.io/apiserver/pkg/authorization/authorizer"
+)
+
+// Verification hooks (build tag "verif"): thin exports only, no behaviour.
+
+// VerifSetInitialBackoff changes the first backoff between two attempts of a
+// subject access review (500 ms by default).
+func VerifSetInitialBackoff(a authorizer.Authorizer, d time.Duration) {
+	a.(*MultiClusterSubjectAccessReviewAuthorizer).initialBackoff = d
+}
